@@ -33,13 +33,16 @@ CHECKS = {
                 design='DESIGN.md section 4 C17'),
     'C14': dict(technique='TLA+ model checking (TLC) on ifcreate/always programs + behaviour replay',
                 design='DESIGN.md section 4 C14'),
+    'C10': dict(technique='TLA+ model checking (TLC) with CrashTree/CrashOne enabled in every state: Fresh/RecoversOk after recovery '
+                          '+ gate-driven SIGKILL of the real process tree at every commit/rename point, post-kill state matched '
+                          'against a specification state',
+                design='DESIGN.md section 4 C10'),
 }
 
 PENDING = {
     'C06': 'check under construction (multi-invocation lock model + trace validation); not claimed yet',
     'C08': 'check under construction (RedoJobs token model + trace validation); not claimed yet',
     'C09': 'check under construction (RedoJobs scheduler model); not claimed yet',
-    'C10': 'check under construction (Crash action + kill injection); not claimed yet',
     'C13': 'check under construction (RedoPaths transcription); not claimed yet',
     'C15': 'check under construction (RedoPaths transcription, aliasing); not claimed yet',
     'C16': 'check under construction (RedoDb); not claimed yet',
